@@ -51,11 +51,17 @@ def optJ : Option Json → Json
   | some j => j
   | none => .null
 
+/-- `["in" | "out", name, data]` -/
+def evJson : Ev → Json
+  | .entered n d => .arr [.str (S "in"), .str n, d]
+  | .exited n d => .arr [.str (S "out"), .str n, d]
+
 def outcomeJson (o : Outcome) : Json :=
   .obj [(S "status", .str o.status), (S "output", optJ o.output),
         (S "error", match o.error with | some e => .str e | none => .null),
         (S "cause", optJ o.cause), (S "failState", .bool o.failState),
-        (S "trace", .arr (o.trace.map .str)), (S "multiFail", .bool o.multiFail)]
+        (S "trace", .arr (o.trace.map .str)), (S "multiFail", .bool o.multiFail),
+        (S "log", .arr (o.log.map evJson)), (S "requests", .num o.requests), (S "fanFail", .bool o.fanFail)]
 
 mutual
 /-- every payload template and every Choice rule of the definition is inside what the full
